@@ -110,6 +110,7 @@ def _roundtrip(job, ctx):
         if k != key:
             others[n] = _keyfile(ctx, k, "other-%s.key" % n)[0]
     ivs = set()
+    providers = {}
     only = job.get("only")
     for n in range(job["max_len"] + 1):
         for pname, p in patterns(n).items():
@@ -149,6 +150,18 @@ def _roundtrip(job, ctx):
             prov = (AesProvider if sv.method == "aes" else XorProvider)(key)
             if prov.decrypt(sv.ciphertext) != p:
                 bad("roundtrip-new-provider", "a new provider object does not decrypt to p")
+            # one provider object used for several values (what a caller holding a provider does)
+            shared = providers.setdefault(sv.method, (AesProvider if sv.method == "aes" else XorProvider)(key))
+            c1, c2 = shared.encrypt(p), shared.encrypt(p)
+            if shared.decrypt(c1) != p or prov.decrypt(c2) != p:
+                bad("roundtrip-shared-provider", "a provider object used repeatedly does not invert")
+            if sv.method == "aes":
+                for x in (c1[:16], c2[:16]):
+                    if x in ivs:
+                        bad("iv-reused|provider-object", "a provider object reused IV %s" % x.hex())
+                    ivs.add(x)
+                if c1 == c2:
+                    bad("equal-ciphertexts|provider-object", "one provider object gave identical ciphertexts for equal plaintexts")
             if sv.method == "aes":
                 ct = sv.ciphertext
                 if len(ct) != 16 + 16 * (n // 16 + 1):
